@@ -441,14 +441,15 @@ def run(tier, seed):
         # ---- directory order: -a vs per-file -f, -a vs -a -r
         env_on.install()
         try:
-            for _ in range(10 if thorough else 3):
+            SELS = [['-E'], ['-S', 'Unrecoverable', 'Predictive', 'Informational'], ['-H', '-N'], ['-S', 'Critical', 'Recovered', '-s'], ['-E']]
+            for it_ in range(10 if thorough else 5):
                 d = clirun.keep_decodable(env_on, clirun.gen_wf_dir(rng, rng.choice([2, 4, 7])))
                 # a log whose parser modules raise / return nothing / cannot be loaded is listed first (and, reversed, last): what a failing module
                 # leaves behind must not reach the logs shown after it
                 trouble = mk_pel(rng, 'x', [ud_sec(rng, 0x2222), ud_sec(rng, 0x3333), ud_sec(rng, 0x8888), ud_sec(rng, 0x5A5A), src_sec(rng, b'BD128D34', [b'PROCBAD!'])])
                 files = [(n, apel.enc_pel(p)) for n, p in d] + [('zz_junk', b'PHjunk'), ('!0_trouble', trouble)]
                 path = clirun.make_dir(files)
-                sel = rng.choice([['-E'], ['-E'], ['-S', 'Unrecoverable', 'Predictive', 'Informational'], ['-H', '-N'], ['-S', 'Critical', 'Recovered', '-s']])
+                sel = SELS[it_ % len(SELS)]
                 a, _, _ = clirun.run_main(['-p', path, '-a'] + sel)
                 r, _, _ = clirun.run_main(['-p', path, '-a', '-r'] + sel)
                 singles = []
